@@ -12,6 +12,7 @@ mod suite_db;
 mod suite_fault;
 mod suite_filter;
 mod suite_log;
+mod suite_sched;
 mod suite_table;
 mod suite_version;
 mod util;
@@ -48,6 +49,7 @@ fn main() {
         "crash" => suite_crash::run_crash,
         "fault" => suite_fault::run_fault,
         "corrupt" => suite_corrupt::run_corrupt,
+        "sched" => suite_sched::run_sched,
         _ => panic!("unknown suite {}", suite),
     };
     let timeout = Duration::from_secs(
